@@ -5,13 +5,22 @@ Require Import Verif.lib.PyLite Verif.lib.Utf8 Verif.gen.FailureGen Verif.lib.Fa
 Require Import Verif.gen.CalleeGen Verif.lib.Callee.
 Local Open Scope Z_scope.
 
-(* FailureSlicer never raises (failure_fits): an `error` handed to send() is written in full *)
-Definition the_state (e : denv) : fstate :=
-  match get_state (d_unsafe e) (d_exc e) with Ok fs => fs | Exc _ => {| s_type := []; s_value := []; s_traceback := []; s_parents := [] |} end.
-
-Lemma send_error_total e r s : send_error e r s = with_sent s (MError r (the_state e)).
+(* FailureSlicer returns exactly for the classes it can name (get_state_returns_iff): then the `error` handed to send() is written
+   in full, and its payload is the state FailureSlicer computed (every property of C10_failure_fits holds of it) ... *)
+Lemma send_error_total e r s : nameable (d_exc e) = true -> send_error e r s = with_sent s (MError r (the_state e)).
 Proof.
-  unfold send_error, the_state. destruct (failure_fits (d_unsafe e) (d_exc e)) as (fs & G & _). rewrite G. reflexivity.
+  intros N. unfold send_error, the_state. destruct (proj2 (get_state_returns_iff (d_unsafe e) (d_exc e)) N) as (fs & G). rewrite G. reflexivity.
+Qed.
+
+Lemma the_state_spec e : nameable (d_exc e) = true -> get_state (d_unsafe e) (d_exc e) = Ok (the_state e).
+Proof.
+  intros N. unfold the_state. destruct (proj2 (get_state_returns_iff (d_unsafe e) (d_exc e)) N) as (fs & G). rewrite G. reflexivity.
+Qed.
+
+(* ... otherwise getStateToCopy raises inside produce: the connection is dropped *)
+Lemma send_error_unnameable e r s : nameable (d_exc e) = false -> send_error e r s = dropped s.
+Proof.
+  intros N. unfold send_error. destruct (failure_unnameable_raises (d_unsafe e) (d_exc e) N) as (t & G). rewrite G. reflexivity.
 Qed.
 
 Arguments send_error : simpl never.
@@ -27,32 +36,103 @@ Ltac finish :=
     first [left; split; reflexivity | right; eexists; split; [reflexivity|split; reflexivity]]]]].
 
 Ltac crunch R0 :=
-  repeat (cbn; rewrite ?Z.eqb_refl, ?send_error_total, ?R0; cbn [with_sent with_active dropped swallow active sent cup swallowed]).
+  repeat (cbn; rewrite ?Z.eqb_refl, ?R0; try (rewrite send_error_total by assumption); try (rewrite send_error_unnameable by assumption);
+          cbn [with_sent with_active dropped swallow active sent cup swallowed]).
+
+Ltac open_env e :=
+  destruct e as [r sch rdy rs rok ans ll rr rn us ex];
+  unfold delivery_ok, rejected_ok, must_fail in *;
+  cbn [d_reqid d_answer d_ready d_raises d_schema d_result_ok d_log_local d_repr_raises d_exc] in *.
+
+Ltac open_progs :=
+  unfold handle, register, registers_reqid, delivery_chain, report_violation_prog, call_failed, callfailed_prog, call_finished,
+         callfinished_prog.
 
 (* a call that the CallUnslicer rejects after it knows the request id: exactly one `error`, unless it was the caller who
    aborted (then none: the caller knows).  No condition on logging, rendering, schema ...: callFailed gets no delivery *)
-Theorem rejected_answered_once abort e s : cup s = true -> d_reqid e <> 0 ->
+Theorem rejected_answered_once abort e s : cup s = true -> d_reqid e <> 0 -> rejected_ok abort e ->
   outcome_ok (d_reqid e) (expected_replies (InRejected abort e)) (if abort then d_reqid e :: active s else active s)
              s (handle (InRejected abort e) s).
 Proof.
-  intros U R. apply Z.eqb_neq in R. destruct s as [a sn u sw]. cbn in U. subst u.
-  destruct e as [r sch rdy rs rok ans ll rr rn us ex]. cbn [d_reqid] in *.
-  unfold handle, register, registers_reqid, expected_replies, report_violation_prog, call_failed, callfailed_prog.
-  destruct abort; crunch R; finish.
+  intros U R N. apply Z.eqb_neq in R. destruct s as [a sn u sw]. cbn in U. subst u. open_env e.
+  unfold expected_replies. open_progs.
+  destruct abort; [|specialize (N eq_refl)]; crunch R; finish.
+Qed.
+
+(* WHICH reply, and with what in it: one `error` carrying FailureSlicer's state of the Violation; nothing for the caller's ABORT *)
+Theorem rejected_reply abort e s : cup s = true -> d_reqid e <> 0 -> rejected_ok abort e ->
+  sent (handle (InRejected abort e) s) = sent s ++ reply_of (InRejected abort e).
+Proof.
+  intros U R N. apply Z.eqb_neq in R. destruct s as [a sn u sw]. cbn in U. subst u. open_env e.
+  unfold reply_of. cbn [d_reqid]. open_progs.
+  destruct abort; [|specialize (N eq_refl)]; crunch R; rewrite ?app_nil_r; reflexivity.
+Qed.
+
+(* the guard is exact: the connection survives a rejected call if and only if rejected_ok *)
+Theorem rejected_guard_exact abort e s : cup s = true -> d_reqid e <> 0 ->
+  (cup (handle (InRejected abort e) s) = true <-> rejected_ok abort e).
+Proof.
+  intros U R. apply Z.eqb_neq in R. destruct s as [a sn u sw]. cbn in U. subst u. open_env e. open_progs.
+  destruct (nameable ex) eqn:N; destruct abort; crunch R; split; intros H; try reflexivity; try (intros _; reflexivity);
+    try (intros X; discriminate X); try discriminate H; try (specialize (H eq_refl); discriminate H).
 Qed.
 
 (* a delivery that doNextCall starts (arguments ready or not, method returning or raising, result accepted or not by the
    callee's schema, answer serializable or not, local-failure log on or off, target / arguments formattable or not): exactly
    one `answer` or `error`, the table entry is gone, nothing is swallowed, the connection is up -- provided only that the
    AnswerSlicer does not hit a non-Violation exception (the known finding) *)
-Theorem delivery_answered_once e s : cup s = true -> d_reqid e <> 0 -> d_answer e <> SCrash ->
+Theorem delivery_answered_once e s : cup s = true -> d_reqid e <> 0 -> delivery_ok e ->
   outcome_ok (d_reqid e) 1 (active s) s (handle (InDelivered e) s).
 Proof.
-  intros U R A. apply Z.eqb_neq in R. destruct s as [a sn u sw]. cbn in U. subst u.
-  destruct e as [r sch rdy rs rok ans ll rr rn us ex]. cbn [d_reqid d_answer] in *.
-  unfold handle, register, registers_reqid, delivery_chain, call_failed, callfailed_prog, call_finished, callfinished_prog.
-  destruct ans; [| |congruence]; destruct rdy, rs, sch, rok, ll, rr; crunch R; finish.
+  intros U R A. apply Z.eqb_neq in R. destruct s as [a sn u sw]. cbn in U. subst u. open_env e. open_progs.
+  destruct ans, rdy, rs, sch, rok, ll, rr; cbn [negb orb andb] in A; try congruence; crunch R; finish.
 Qed.
+
+(* WHICH reply (the statement outcome_ok leaves open): an `error` exactly when the arguments did not become ready, the method raised or
+   the callee's schema rejects the result -- carrying FailureSlicer's state of that exception -- and otherwise the `answer` (which
+   the caller sees aborted when an AnswerSlicer raised Violation).  Kills the model mutants `a raising method is answered with an
+   answer`, `checkResults always accepts`, `_doCall fails only when the log cannot render`. *)
+Theorem reply_kind e s : cup s = true -> d_reqid e <> 0 -> delivery_ok e ->
+  sent (handle (InDelivered e) s) = sent s ++
+    [if must_fail e then MError (d_reqid e) (the_state e)
+     else match d_answer e with SViolation => MAnswerAborted (d_reqid e) | _ => MAnswer (d_reqid e) end].
+Proof.
+  intros U R A. apply Z.eqb_neq in R. destruct s as [a sn u sw]. cbn in U. subst u.
+  destruct e as [r sch rdy rs rok ans ll rr rn us ex]. unfold delivery_ok in A. unfold must_fail in *.
+  cbn [d_reqid d_answer d_ready d_raises d_schema d_result_ok d_exc] in *. open_progs.
+  destruct ans, rdy, rs, sch, rok, ll, rr; cbn [negb orb andb] in A |- *; try congruence; crunch R; reflexivity.
+Qed.
+
+(* the guard is exact: the connection survives a delivery if and only if delivery_ok -- outside it (an exception whose class
+   cannot be named when an `error` is due, a crashing AnswerSlicer when an `answer` is due) the model drops the connection *)
+Theorem delivery_guard_exact e s : cup s = true -> d_reqid e <> 0 ->
+  (cup (handle (InDelivered e) s) = true <-> delivery_ok e).
+Proof.
+  intros U R. apply Z.eqb_neq in R. destruct s as [a sn u sw]. cbn in U. subst u. open_env e. open_progs.
+  destruct (nameable ex) eqn:N; destruct ans, rdy, rs, sch, rok, ll, rr; cbn [negb orb andb]; crunch R;
+    split; intros H; try reflexivity; try discriminate H; try congruence.
+Qed.
+
+(* the region delivery_ok excludes when an `error` is due, as a statement of its own (finding
+   oracle/sibling-affected/exception-class-without-module): a method raising an exception whose class (or an ancestor) has no module
+   name takes the connection down instead of failing its call *)
+Theorem unnameable_error_drops_connection e s : cup s = true -> d_reqid e <> 0 -> must_fail e = true ->
+  nameable (d_exc e) = false -> cup (handle (InDelivered e) s) = false.
+Proof.
+  intros U R M N. destruct (cup (handle (InDelivered e) s)) eqn:C; [|reflexivity].
+  apply (delivery_guard_exact e s U R) in C. unfold delivery_ok in C. rewrite M in C. congruence.
+Qed.
+
+Example ex_unnameable_drops :
+  let e := {| d_reqid := 7; d_schema := false; d_ready := true; d_raises := true; d_result_ok := true; d_answer := SOk;
+              d_log_local := false; d_repr_raises := false; d_render_raises := false; d_unsafe := false;
+              d_exc := {| e_type := Exc "TypeError"%string; e_str := Ok [109]; e_fallback := []; e_stack := [];
+                          e_parents := Exc "TypeError"%string |} |} in
+  must_fail e = true /\ nameable (d_exc e) = false /\ handle (InDelivered e) cinit0 = {| active := []; sent := []; cup := false; swallowed := 0 |} /\
+  (* a one-way call raising the same exception is contained: no error is ever built *)
+  handle (InDelivered {| d_reqid := 0; d_schema := false; d_ready := true; d_raises := true; d_result_ok := true; d_answer := SOk;
+              d_log_local := false; d_repr_raises := false; d_render_raises := false; d_unsafe := false; d_exc := d_exc e |}) cinit0 = cinit0.
+Proof. vm_compute. auto. Qed.
 
 (* one-way calls (reqID 0) are never answered, whatever happens *)
 Theorem one_way_never_answered i s : d_reqid (in_env i) = 0 -> sent (handle i s) = sent s.
@@ -80,7 +160,7 @@ Proof.
 Qed.
 
 Example ex_one_way :
-  let x := {| e_type := [86]; e_str := Ok [109]; e_fallback := []; e_stack := []; e_parents := [] |} in
+  let x := {| e_type := Ok [86]; e_str := Ok [109]; e_fallback := []; e_stack := []; e_parents := Ok [] |} in
   let mk rdy rs ans := {| d_reqid := 0; d_schema := true; d_ready := rdy; d_raises := rs; d_result_ok := false; d_answer := ans;
                           d_log_local := true; d_repr_raises := true; d_render_raises := true; d_unsafe := true; d_exc := x |} in
   let s0 := {| active := [4]; sent := [MAnswer 3]; cup := true; swallowed := 0 |} in
@@ -90,21 +170,21 @@ Proof. vm_compute. reflexivity. Qed.
 
 (* ---- the case that used to break the statement (repaired in foolscap: the log entry is guarded): the local-failure log is on
    and the target (or an argument) cannot be formatted -- the error is sent all the same *)
-Theorem unrenderable_delivery_answered e s : cup s = true -> d_reqid e <> 0 -> d_answer e <> SCrash ->
+Theorem unrenderable_delivery_answered e s : cup s = true -> d_reqid e <> 0 -> nameable (d_exc e) = true ->
   d_log_local e = true -> d_repr_raises e = true -> d_raises e = true ->
   let s' := handle (InDelivered e) s in
-  (exists fs, sent s' = sent s ++ [MError (d_reqid e) fs]) /\ active s' = active s /\ swallowed s' = swallowed s /\ cup s' = true.
+  sent s' = sent s ++ [MError (d_reqid e) (the_state e)] /\ active s' = active s /\ swallowed s' = swallowed s /\ cup s' = true.
 Proof.
   intros U R A L RR RS. apply Z.eqb_neq in R. destruct s as [a sn u sw]. cbn in U. subst u.
-  destruct e as [r sch rdy rs rok ans ll rr rn us ex]. cbn [d_reqid d_answer d_log_local d_repr_raises d_raises] in *. subst.
-  unfold handle, register, registers_reqid, delivery_chain, call_failed, callfailed_prog, call_finished, callfinished_prog.
-  destruct rdy; crunch R; (split; [eexists; reflexivity|auto]).
+  destruct e as [r sch rdy rs rok ans ll rr rn us ex]. cbn [d_reqid d_answer d_log_local d_repr_raises d_raises d_exc] in *. subst.
+  open_progs.
+  destruct rdy; crunch R; (split; [reflexivity|auto]).
 Qed.
 
 Example ex_unrenderable :
   let e := {| d_reqid := 7; d_schema := false; d_ready := true; d_raises := true; d_result_ok := true; d_answer := SOk;
               d_log_local := true; d_repr_raises := true; d_render_raises := false; d_unsafe := false;
-              d_exc := {| e_type := [86]; e_str := Ok [109]; e_fallback := []; e_stack := []; e_parents := [] |} |} in
+              d_exc := {| e_type := Ok [86]; e_str := Ok [109]; e_fallback := []; e_stack := []; e_parents := Ok [] |} |} in
   List.length (sent (handle (InDelivered e) cinit0)) = 1%nat /\ active (handle (InDelivered e) cinit0) = [] /\
   swallowed (handle (InDelivered e) cinit0) = 0%nat.
 Proof. vm_compute. auto. Qed.
@@ -126,8 +206,8 @@ Definition reqid_of (i : inbound) : Z := d_reqid (in_env i).
 Definition inbound_ok (i : inbound) : Prop :=
   reqid_of i <> 0 /\
   match i with
-  | InRejected _ _ => True
-  | InDelivered e => d_answer e <> SCrash
+  | InRejected abort e => rejected_ok abort e
+  | InDelivered e => delivery_ok e
   end.
 
 Lemma replies_app r a b : replies r (a ++ b) = (replies r a + replies r b)%nat.
@@ -144,7 +224,7 @@ Proof.
   assert (O : exists a, outcome_ok (reqid_of i) (expected_replies i) a s (handle i s) /\
                         (forall x, In x a -> x = reqid_of i \/ In x (active s))).
   { destruct i as [abort e|e]; unfold reqid_of in *; cbn [in_env] in *.
-    - eexists. split; [apply (rejected_answered_once abort e s U R)|]. destruct abort; cbn; intuition.
+    - eexists. split; [apply (rejected_answered_once abort e s U R K)|]. destruct abort; cbn; intuition.
     - exists (active s). split; [|auto].
       assert (E : expected_replies (InDelivered e) = 1%nat).
       { unfold expected_replies. apply Z.eqb_neq in R. rewrite R. reflexivity. }
@@ -183,7 +263,7 @@ Qed.
 
 (* non-vacuity: four calls of four kinds *)
 Example ex_history :
-  let x := {| e_type := [86]; e_str := Ok [109]; e_fallback := []; e_stack := []; e_parents := [] |} in
+  let x := {| e_type := Ok [86]; e_str := Ok [109]; e_fallback := []; e_stack := []; e_parents := Ok [] |} in
   let mk r rdy rs sch rok ans := {| d_reqid := r; d_schema := sch; d_ready := rdy; d_raises := rs; d_result_ok := rok; d_answer := ans;
                                     d_log_local := true; d_repr_raises := false; d_render_raises := true; d_unsafe := true; d_exc := x |} in
   let ins := [InDelivered (mk 1 true false false true SOk); InRejected false (mk 2 true false false true SOk);
@@ -194,12 +274,8 @@ Example ex_history :
   = [(0, 1); (2, 2); (2, 3); (2, 4); (1, 6)] /\ active (handle_all ins cinit0) = [5].
 Proof.
   cbn zeta. split.
-  { assert (D : forall r rdy rs sch rok ans, ans <> SCrash -> r <> 0 -> inbound_ok (InDelivered
-        {| d_reqid := r; d_schema := sch; d_ready := rdy; d_raises := rs; d_result_ok := rok; d_answer := ans; d_log_local := true;
-           d_repr_raises := false; d_render_raises := true; d_unsafe := true;
-           d_exc := {| e_type := [86]; e_str := Ok [109]; e_fallback := []; e_stack := []; e_parents := [] |} |}))
-      by (intros; split; [exact H0|exact H]).
-    repeat (apply Forall_cons || apply Forall_nil); try (apply D; discriminate); (split; [cbn; discriminate|exact I]). }
+  { repeat (apply Forall_cons || apply Forall_nil);
+      (split; [cbn; discriminate|cbn; first [reflexivity | discriminate | intros _; reflexivity | intros X; discriminate X]]). }
   split; [repeat constructor; cbn; intuition discriminate|]. split; vm_compute; reflexivity.
 Qed.
 
@@ -270,7 +346,7 @@ Qed.
 (* non-vacuity: one-way calls of every kind (aborted by the caller, rejected by the callee, not ready, raising, fine) between
    ordinary calls *)
 Example ex_history_one_way :
-  let x := {| e_type := [86]; e_str := Ok [109]; e_fallback := []; e_stack := []; e_parents := [] |} in
+  let x := {| e_type := Ok [86]; e_str := Ok [109]; e_fallback := []; e_stack := []; e_parents := Ok [] |} in
   let mk r rdy rs sch rok ans := {| d_reqid := r; d_schema := sch; d_ready := rdy; d_raises := rs; d_result_ok := rok; d_answer := ans;
                                     d_log_local := true; d_repr_raises := false; d_render_raises := true; d_unsafe := true; d_exc := x |} in
   let ins := [InDelivered (mk 1 true false false true SOk); InRejected true (mk 0 true false false true SOk);
@@ -284,6 +360,76 @@ Example ex_history_one_way :
 Proof.
   cbn zeta. split.
   { repeat (apply Forall_cons || apply Forall_nil);
-      first [left; reflexivity | right; split; [cbn; discriminate | first [exact I | cbn; discriminate]]]. }
+      first [left; reflexivity
+            | right; split; [cbn; discriminate|cbn; first [reflexivity | discriminate | intros _; reflexivity | intros X; discriminate X]]]. }
   split; [vm_compute; repeat constructor; cbn; intuition discriminate|]. split; vm_compute; reflexivity.
 Qed.
+
+(* ---- WHICH replies, for whole histories: the exact sequence of messages handed to Broker.send (no NoDup needed: nothing here
+   depends on the ids being distinct) -- for every call its `error` (with FailureSlicer's state of its exception) or its `answer` as
+   reply_of says, in arrival order, nothing else; the connection stays up.  Every hypothesis is exact (delivery_guard_exact,
+   rejected_guard_exact). *)
+Lemma handle_reply i s : cup s = true -> inbound_ok1 i ->
+  sent (handle i s) = sent s ++ reply_of i /\ cup (handle i s) = true.
+Proof.
+  intros U [Z|[R K]].
+  - destruct (one_way_contained i s U Z) as (C & M & _). split; [|exact C]. rewrite M.
+    unfold reply_of, reqid_of in *. destruct i as [ab e|e]; cbn [in_env] in Z; rewrite Z; cbn; rewrite ?orb_true_r, app_nil_r; reflexivity.
+  - destruct i as [abort e|e]; unfold reqid_of in R; cbn [in_env] in R.
+    + split; [exact (rejected_reply abort e s U R K)|]. apply (rejected_guard_exact abort e s U R). exact K.
+    + split; [|apply (delivery_guard_exact e s U R); exact K].
+      rewrite (reply_kind e s U R K). unfold reply_of. apply Z.eqb_neq in R. rewrite R. reflexivity.
+Qed.
+
+Theorem history_replies ins : forall s, cup s = true -> Forall inbound_ok1 ins ->
+  sent (handle_all ins s) = sent s ++ flat_map reply_of ins /\ cup (handle_all ins s) = true.
+Proof.
+  induction ins as [|i ins IH]; intros s U F.
+  - cbn. rewrite app_nil_r. auto.
+  - inversion F as [|? ? Fi Fr]; subst. destruct (handle_reply i s U Fi) as (M & C).
+    cbn [handle_all fold_left flat_map]. fold (handle_all ins (handle i s)).
+    destruct (IH (handle i s) C Fr) as (M2 & C2). split; [|exact C2]. rewrite M2, M, app_assoc. reflexivity.
+Qed.
+
+(* non-vacuity of history_guard_exact, and of the guard itself: a fault-free call, then a method raising an exception whose class
+   cannot be named, then another fault-free call -- the first is answered, the connection is down, the third gets nothing *)
+Example ex_history_outside_guard :
+  let ok := {| e_type := Ok [86]; e_str := Ok [109]; e_fallback := []; e_stack := []; e_parents := Ok [] |} in
+  let bad := {| e_type := Exc "TypeError"%string; e_str := Ok [109]; e_fallback := []; e_stack := []; e_parents := Exc "TypeError"%string |} in
+  let mk r rs x := {| d_reqid := r; d_schema := false; d_ready := true; d_raises := rs; d_result_ok := true; d_answer := SOk;
+                      d_log_local := false; d_repr_raises := false; d_render_raises := false; d_unsafe := false; d_exc := x |} in
+  Forall inbound_ok1 [InDelivered (mk 1 false ok)] /\ ~ delivery_ok (mk 2 true bad) /\ delivery_ok (mk 2 true ok) /\
+  handle_all [InDelivered (mk 1 false ok); InDelivered (mk 2 true bad); InDelivered (mk 3 false ok)] cinit0
+    = {| active := []; sent := [MAnswer 1]; cup := false; swallowed := 0 |}.
+Proof.
+  cbn zeta. split; [apply Forall_cons; [right; split; [cbn; discriminate|cbn; discriminate]|apply Forall_nil]|].
+  split; [cbn; discriminate|]. split; [reflexivity|vm_compute; reflexivity].
+Qed.
+
+(* the first call outside the guard ends the history: the connection is down and stays down, whatever follows *)
+Lemma handle_all_down ins : forall s, cup s = false -> handle_all ins s = s.
+Proof.
+  induction ins as [|i ins IH]; intros s D; [reflexivity|]. cbn [handle_all fold_left]. fold (handle_all ins (handle i s)).
+  assert (E : handle i s = s) by (unfold handle; rewrite D; reflexivity). rewrite E. exact (IH s D).
+Qed.
+
+Theorem history_guard_exact pre e post s : cup s = true -> Forall inbound_ok1 pre -> d_reqid e <> 0 -> ~ delivery_ok e ->
+  let s' := handle_all (pre ++ InDelivered e :: post) s in
+  cup s' = false /\ sent s' = sent s ++ flat_map reply_of pre.
+Proof.
+  intros U F R K. cbn zeta. unfold handle_all. rewrite fold_left_app. cbn [fold_left].
+  fold (handle_all pre s). destruct (history_replies pre s U F) as (M & C).
+  fold (handle_all post (handle (InDelivered e) (handle_all pre s))).
+  assert (D : cup (handle (InDelivered e) (handle_all pre s)) = false).
+  { destruct (cup (handle (InDelivered e) (handle_all pre s))) eqn:X; [|reflexivity].
+    exfalso. apply K. apply (delivery_guard_exact e _ C R). exact X. }
+  rewrite (handle_all_down post _ D). split; [exact D|].
+  (* nothing is written by the crashing call *)
+  rewrite <- M. revert D. generalize (handle_all pre s) as s1. intros s1. revert K R. clear.
+  intros K R D. destruct s1 as [a sn u sw]. destruct u; [|reflexivity]. apply Z.eqb_neq in R.
+  destruct e as [r sch rdy rs rok ans ll rr rn us ex]. unfold delivery_ok, must_fail in K.
+  cbn [d_reqid d_answer d_ready d_raises d_schema d_result_ok d_exc] in *. revert D. open_progs.
+  destruct (nameable ex) eqn:N; destruct ans, rdy, rs, sch, rok, ll, rr; cbn [negb orb andb] in K; crunch R;
+    intros D; try reflexivity; try discriminate D; exfalso; apply K; congruence.
+Qed.
+
